@@ -154,6 +154,25 @@ def log_conversions(ctx, prog):
             ce = strip(Sym(cl[0]).local(0))
             ok = ce[0] == "call" and ce[1].endswith("block_size::from_log_internal")
             why += " ; closure: " + show(ce)
+    if not ok:
+        # the same function spelled with if/else: Some(from_log_internal(x)) exactly under is_log_valid(x), None otherwise
+        from ..sym import path_conds, bool_atom
+        sy = Sym(f)
+        some, none, other = [], [], []
+        for i, j, s in f.stmts():
+            if s["s"] == "assign" and s["lhs"]["l"] == 0 and not s["lhs"]["p"]:
+                v = strip(sy.rvalue(s["rv"]))
+                ats = [bool_atom(c) for c in path_conds(f, sy, i)]
+                g = [a[2] for a in ats if a and a[0] == "truth" and match(strip(a[1]), ("call", "block_size::is_log_valid", [("param", "log_block_size")]))]
+                if v[0] == "agg" and v[1].endswith("Option::Some") and strip(v[2][0])[0] == "call" and strip(v[2][0])[1].endswith("block_size::from_log_internal") and \
+                        match(strip(strip(v[2][0])[2][0]), ("param", "log_block_size")) and g == [True]:
+                    some.append(i)
+                elif v[0] == "agg" and v[1].endswith("Option::None") and g == [False]:
+                    none.append(i)
+                else:
+                    other.append(show(v)[:60])
+        ok = len(some) == 1 and len(none) == 1 and not other
+        why += " ; if/else form: Some at bb%s, None at bb%s, other %s" % (some, none, other)
     ctx.ob(RD, "from_log(x) = is_log_valid(x).then(|| from_log_internal(x))", ok, why, f.loc())
     g = prog.fn("block_size::from_log_internal")
     ctx.visit(g)
